@@ -19,6 +19,7 @@ import (
 	"math/rand"
 	"os"
 	"path/filepath"
+	"runtime"
 	"sort"
 	"strconv"
 	"strings"
@@ -48,6 +49,10 @@ var (
 	fMaxTTL  = flag.Int("maxttl", 3, "largest time to live in seconds")
 )
 
+// hangMark prefixes the "panic text" of a command that never returned: the executor (in-process database or the
+// connection) is unusable afterwards, so the worker reports and ends its batch.
+const hangMark = "HANG: "
+
 type executor interface {
 	Do(cmd [][]byte) (respc.Value, string) // reply, panic text
 	Dump() []model.Entry                   // nil when unavailable
@@ -56,8 +61,24 @@ type executor interface {
 type inprocExec struct{ in *inproc.Inst }
 
 func (e *inprocExec) Do(cmd [][]byte) (respc.Value, string) {
-	r := e.in.Exec(cmd, nil)
-	return r.V, r.Panic
+	var r inproc.Result
+	done := make(chan struct{})
+	go func() { r = e.in.Exec(cmd, nil); close(done) }()
+	select {
+	case <-done:
+		return r.V, r.Panic
+	case <-time.After(20 * time.Second):
+		// positive evidence of a hang: the goroutine that is still inside the executor
+		buf := make([]byte, 1<<20)
+		buf = buf[:runtime.Stack(buf, true)]
+		stack := ""
+		for _, g := range strings.Split(string(buf), "\n\n") {
+			if strings.Contains(g, "inproc.(*Inst).Exec") {
+				stack = inproc.TopFrames(g, 8)
+			}
+		}
+		return respc.Value{}, hangMark + "command did not return within 20s; its goroutine:\n" + stack
+	}
 }
 func (e *inprocExec) Dump() []model.Entry { return e.in.Dump() }
 
@@ -69,6 +90,9 @@ type tcpExec struct {
 func (e *tcpExec) Do(cmd [][]byte) (respc.Value, string) {
 	v, err := e.c.DoB(cmd)
 	if err != nil {
+		if ne, ok := err.(interface{ Timeout() bool }); ok && ne.Timeout() && !e.srv.Exited() {
+			return v, hangMark + "no reply within 20s although the server process is alive; goroutines:\n" + inproc.TopFrames(e.srv.Dump(), 10)
+		}
 		return v, "connection error: " + err.Error() + " " + e.srv.CrashLine()
 	}
 	return v, ""
@@ -117,6 +141,19 @@ var probesByType = map[string][][]string{
 	"stream": {{"XADD", "9-1", "g", "w"}, {"XRANGE", "-", "+"}, {"EXISTS"}, {"TYPE"}, {"TTL"}, {"XADD", "NOMKSTREAM", "9-1", "g", "w"}},
 }
 
+// the expiring key in a position other than the first: @k is the key under test, @src a live key of the same type
+// without deadline (created in the setup phase), @none a key that never exists, @dst a fresh destination
+var secondaryProbes = map[string][][]string{
+	"string": {{"MGET", "@src", "@k"}, {"MSET", "@src", "v", "@k", "w"}, {"RENAME", "@src", "@k"}, {"DEL", "@src", "@k"}, {"EXISTS", "@src", "@k", "@k"}, {"DEL", "@none", "@k"}},
+	"list": {{"LMOVE", "@src", "@k", "LEFT", "RIGHT"}, {"LMOVE", "@src", "@k", "RIGHT", "LEFT"}, {"BLPOP", "@none", "@k", "1"}, {"BRPOP", "@none", "@k", "1"}, {"RENAME", "@src", "@k"}, {"DEL", "@src", "@k"}, {"EXISTS", "@src", "@k"},
+		{"LMOVE", "@k", "@k", "LEFT", "RIGHT"}},
+	"set": {{"SMOVE", "@src", "@k", "a"}, {"SUNION", "@src", "@k"}, {"SINTER", "@src", "@k"}, {"SDIFF", "@src", "@k"}, {"SUNIONSTORE", "@k", "@src"}, {"SINTERSTORE", "@dst", "@src", "@k"}, {"SDIFFSTORE", "@k", "@src", "@none"},
+		{"SUNIONSTORE", "@k", "@k"}, {"SINTERSTORE", "@k", "@k", "@src"}, {"RENAME", "@src", "@k"}, {"DEL", "@src", "@k"}, {"SMOVE", "@k", "@k", "a"}},
+	"hash":   {{"RENAME", "@src", "@k"}, {"DEL", "@src", "@k"}, {"EXISTS", "@src", "@k"}},
+	"zset":   {{"RENAME", "@src", "@k"}, {"DEL", "@src", "@k"}, {"EXISTS", "@k", "@src"}},
+	"stream": {{"RENAME", "@src", "@k"}, {"DEL", "@src", "@k"}, {"EXISTS", "@k", "@src"}},
+}
+
 // writes of another type: from the deadline on they must start from an empty key (not answer WRONGTYPE because the
 // dead value is still lying around), before it they must fail with WRONGTYPE and change nothing
 func init() {
@@ -142,6 +179,25 @@ func init() {
 
 func buildProbe(tpl []string, k string) []string {
 	name := tpl[0]
+	for _, a := range tpl {
+		if a == "@k" {
+			out := make([]string, len(tpl))
+			for i, a := range tpl {
+				switch a {
+				case "@k":
+					a = k
+				case "@src":
+					a = k + ":src"
+				case "@dst":
+					a = k + ":dst"
+				case "@none":
+					a = k + ":none"
+				}
+				out[i] = a
+			}
+			return out
+		}
+	}
 	if name == "SUNIONSTORE@" {
 		return []string{"SUNIONSTORE", k + ":dst", k}
 	}
@@ -278,6 +334,11 @@ func planKey(r *rand.Rand, idx int, maxTTL int) *keyPlan {
 	}
 	// probes
 	ps := probesByType[p.typ]
+	if r.Intn(5) == 0 {
+		ps = secondaryProbes[p.typ]
+		// the companion key of the same type, without deadline (RENAME follow-ups may have used and moved k:src already)
+		p.setup = append(p.setup, cmdOf("DEL", k+":src"), createCmd(p.typ, k+":src"))
+	}
 	p.probe = buildProbe(ps[r.Intn(len(ps))], k)
 	if r.Intn(2) == 0 {
 		pre := [][]string{{"EXISTS", k}, {"TTL", k}, {"TYPE", k}}
@@ -397,6 +458,12 @@ func worker(o *common.Opts) {
 				seen[sig] = true
 				out.Divs = append(out.Divs, div{Kind: kind, Key: p.key, Type: p.typ, Attach: p.attach, Follow: p.follow, TTL: p.ttl, Phase: phase, Cmd: cmd, Want: want, Got: got,
 					Times: fmt.Sprintf("setup second %d, call bracket [%d.%03d, %d.%03d]", S, t0.Unix(), t0.Nanosecond()/1e6, t1.Unix(), t1.Nanosecond()/1e6), Setup: p.setup, Sig: sig})
+			}
+			if strings.HasPrefix(pan, hangMark) {
+				report("hang", "a reply (only the blocking pops may wait, and only for their timeout)", pan)
+				b, _ := json.Marshal(out)
+				_ = os.WriteFile(*fOut, b, 0o644)
+				os.Exit(0)
 			}
 			if pan != "" {
 				report("panic", "a reply", pan)
